@@ -58,8 +58,30 @@ pub mod syntax {
     }
     impl<'src> Clone for Walker<'src> {
         #[verifier::external_body]
-        fn clone(&self) -> (r: Walker<'src>) ensures r.key() == self.key() { unimplemented!() }
+        fn clone(&self) -> (r: Walker<'src>) ensures r == *self { unimplemented!() }
     }
+    /// what the character-level operations of the walker answer (uninterpreted here; maybe_expect_char is proved in
+    /// U-walker): the walker after taking the literal character c - skipping blanks and comments, ignoring ASCII case -
+    /// or None when the next character is another one
+    pub uninterp spec fn char_step<'src>(w: Walker<'src>, c: char) -> Option<Walker<'src>>;
+    /// the walker is at the end of its text
+    pub uninterp spec fn over<'src>(w: Walker<'src>) -> bool;
+    /// the very next token (nothing skipped) is a blank
+    pub uninterp spec fn next_is_blank<'src>(w: Walker<'src>) -> bool;
+    /// char::eq_ignore_ascii_case as a relation (ASSUMED specification)
+    pub uninterp spec fn same_ignoring_ascii_case(a: char, b: char) -> bool;
+    pub assume_specification[ char::eq_ignore_ascii_case ](a: &char, b: &char) -> (r: bool)
+        ensures r == same_ignoring_ascii_case(*a, *b);
+    /// derived PartialEq of TokenKind (ASSUMED to be what #[derive] generates: equal variants)
+    impl vstd::std_specs::cmp::PartialEqSpecImpl for TokenKind {
+        open spec fn obeys_eq_spec() -> bool { true }
+        open spec fn eq_spec(&self, other: &TokenKind) -> bool { *self == *other }
+    }
+    impl PartialEq for TokenKind {
+        #[verifier::external_body]
+        fn eq(&self, other: &TokenKind) -> (r: bool) { unimplemented!() }
+    }
+    //@@ITEMS syntax
     }
 }
 pub mod asm {
